@@ -102,6 +102,24 @@ def one(mon: Monitor, rng: random.Random) -> None:
 
     b, e = call(chunked)
     cls = kind
+    if e is None and rng.random() < 0.25:
+        # the same reprojection with two different destination chunkings inside ONE dask expression (lazy comparison / mosaic of alternatives):
+        # each operand must still be what it is when computed alone
+        dch2 = (max(1, dch[0] // 2) if dch[0] > 1 else 3, dch[1] + 1)
+
+        def joint():
+            l1 = xr_reproject(xd, dst, resampling=resampling, chunks=dch, **dkw)
+            l2 = xr_reproject(xd, dst, resampling=resampling, chunks=dch2, **dkw)
+            return da.stack([l1.data.rechunk(-1), l2.data.rechunk(-1)]).compute(scheduler="sync"), l2.compute(scheduler="sync").values
+
+        jr, je = call(joint)
+        if je is not None:
+            mon.fail("joint-graph", {**cfg, "dst_chunks_2": dch2, "exc": je}, key="joint-graph-raises", cls=cls)
+        else:
+            (j1, j2), b2 = jr
+            okj = np.array_equal(j1, b, equal_nan=True) and np.array_equal(j2, b2, equal_nan=True)
+            mon.check(bool(okj), "joint-graph", lambda: {**cfg, "dst_chunks_2": dch2, "first_operand_same_as_alone": bool(np.array_equal(j1, b, equal_nan=True)), "second_operand_same_as_alone": bool(np.array_equal(j2, b2, equal_nan=True))},
+                      key="joint-graph-differs", cls=cls, sig=hsig("j13", repr(cfg)))
     if e is not None:
         import traceback
 
@@ -182,7 +200,7 @@ def run(mon: Monitor, tier: str, seed: int, shard: int, nshards: int) -> None:
     mon.obs["distinct_orders_sync"] = len({o for s, o in _orders if s == "sync"})
     mon.obs["distinct_orders_threads"] = len({o for s, o in _orders if s == "threads"})
     for pt, n in [("fill-rule", 150), ("chunked==whole", 60), ("fill-rule|same|far|all-outside", 5), ("fill-rule|cross|far|all-outside", 2), ("fill-rule|same|partial", 10), ("chunked==whole|same|subpix", 3),
-                  ("chunked==whole|same|mirror", 3), ("chunked==whole|same|scale", 3), ("fill-rule|cross|shift", 5), ("inside-rule", 40), ("inside-rule|cross|global-source", 3)]:
+                  ("chunked==whole|same|mirror", 3), ("chunked==whole|same|scale", 3), ("fill-rule|cross|shift", 5), ("inside-rule", 40), ("joint-graph", 25), ("inside-rule|cross|global-source", 3)]:
         mon.floor(pt, n)
 
 
